@@ -15,7 +15,7 @@ SPEC = {
     "rule": "histories of 1..8 messages to one Monitor: 72% RAs (arbitrary header, router lifetime 0 / 1s / 65535s / sub-second, 0..6 "
             "prefix options from a pool (so prefixes repeat) or with random address and length 0..128, unmasked prefixes and sub-second "
             "lifetimes when hand-built, infinite / zero lifetimes, other and unknown options interleaved, option order shuffled in 30%), "
-            "RS / NS / NA; 1..3 senders per history with and without zones (so senders repeat); 60% of the histories go through "
+            "RS / NS / NA; 1..3 senders per history with and without zones (so senders repeat) from a pool of link-local, global, IPv4-mapped (::ffff:a.b.c.d, whose label must stay the 128-bit address), unspecified and loopback addresses; 60% of the histories go through "
             "Monitor.monitor + listener.Listen on a scripted connection after a real encode/decode (8% of those RAs get a prefix "
             "length byte > 128 patched in), the others call Monitor.handle directly; receipt times around 1970 (also before), second "
             "boundaries, 2^31 s, today, 2100; 20% repeat an earlier RA at a later time. A case is non-trivial when it contains an RA "
